@@ -14,7 +14,9 @@ type c09Case struct {
 	payload string // "" | "int" | "string"
 }
 
-var c09CaseNames = []string{"Aa", "Bb", "Cc", "Dd", "Ee"}
+// case names of which some are proper prefixes of others (in both declaration orders): coverage is
+// by the exact name
+var c09CaseNames = []string{"Aa", "Aab", "Cc", "C", "Ee"}
 
 // c09Foreign: 0 = none; 1 / 2 = an arm naming a case of ANOTHER union (payload-less / payload
 // ignored) is inserted before arm c09ForeignPos.  Such an arm covers nothing of U.
